@@ -190,7 +190,11 @@ def build_property(prop_id: str, extra_targets: list[str] = ()) -> tuple[list[Br
     if vo.exists():
         vo.unlink()
     t0 = time.time()
-    ok, out = coq_make([target, *extra_targets])
+    if extra_targets:
+        # oracle / model targets first and independently (make -k): a broken proof must not leave them stale
+        write_coqproject()
+        sh(f"timeout 1500 make -k -j{NPROC} {' '.join(extra_targets)}", cwd=COQ, timeout=1530)
+    ok, out = coq_make([target])
     info["build_s"] = round(time.time() - t0, 1)
     info["checker_cmd"] = f"cd coq && coq_makefile -f _CoqProject -o Makefile && make -j{NPROC} {target}"
     if not ok:
